@@ -144,6 +144,10 @@ def run_one(tape, cfg):
     if kind == "float_nan" and mixed_dtype:
         # partitions whose key column deviates from the (float64) meta: a null-free partition of
         # whole numbers arrives as int64, as it does when every file is parsed on its own
+        # (the keys of a null-free partition are rounded up to whole numbers first, in the reference
+        # frame too, so that the situation occurs often)
+        pieces = [p.assign(k=np.ceil(p["k"])) if len(p) and p["k"].notna().all() else p for p in pieces]
+        df = pd.concat(pieces) if pieces else df
         conv = [len(p) and p["k"].notna().all() and (p["k"] == p["k"].round()).all() for p in pieces]
         if any(conv) and not all(conv):
             out.probe("int64_partition_under_float64_meta")
@@ -196,6 +200,8 @@ def run_one(tape, cfg):
                 r = d.shuffle(on, npartitions=nout, shuffle_method=method, max_branch=max_branch)
                 parts = parts_of(r)
                 got = pd.concat(parts) if parts else df.iloc[:0]
+                if kind == "float_nan" and mixed_dtype:
+                    got = got.astype({"k": "float64"})   # partitions may carry the key as int64
                 if sorted(got["v"].tolist()) != list(range(n)) or not got.sort_values("v").reset_index(
                         drop=True).equals(df.sort_values("v").reset_index(drop=True)):
                     problem = ("shuffle_rows_changed", f"multiset of rows changed: got v={sorted(got['v'].tolist())}")
